@@ -12,6 +12,7 @@ import (
 	"sync/atomic"
 
 	"github.com/ontio/ontology/common"
+	"github.com/ontio/ontology/core/store/ledgerstore"
 	"github.com/ontio/ontology/core/types"
 	"verifharness/lib/chain"
 	"verifharness/lib/racelog"
@@ -28,9 +29,12 @@ type committed struct {
 }
 
 var (
-	r     *vf.Run
-	known []committed // index = height
-	mu    sync.RWMutex
+	rivalAt   = map[uint32]common.Uint256{} // height -> hash of a competing header announced before the commit
+	crashDirs [][2]string
+	crashAt   uint32
+	r         *vf.Run
+	known     []committed // index = height
+	mu        sync.RWMutex
 )
 
 func checkHeight(c *chain.Chain, h uint32, stage string) {
@@ -74,6 +78,15 @@ func checkHeight(c *chain.Chain, h uint32, stage string) {
 		if !bytes.Equal(rh.Payload, k.hdrRaw) {
 			fail("GetRawHeaderByHash", "payload differs from header bytes")
 		}
+	}
+	if rv, ok := rivalAt[h]; ok {
+		if b, err := l.GetBlockByHash(rv); err == nil && b != nil {
+			fail("GetBlockByHash(rival)", "a block that was never committed is returned")
+		}
+		if ok, _ := l.IsContainBlock(rv); ok {
+			fail("IsContainBlock(rival)", "a block that was never committed is reported as contained")
+		}
+		r.Count("rival_checked/" + stage)
 	}
 	if ok, err := l.IsContainBlock(k.hash); err != nil || !ok {
 		fail("IsContainBlock", fmt.Sprintf("ok=%v err=%v", ok, err))
@@ -186,6 +199,10 @@ func main() {
 	record(c.Genesis, false)
 	L := vf.N(70, 2150)
 	restartAt := map[int]bool{L / 3: true, 2 * L / 3: true, L: true}
+	crashSnapAt := map[int]bool{}
+	for k := 0; k < vf.N(8, 24); k++ {
+		crashSnapAt[2+rng.Intn(L-2)] = true
+	}
 	var top uint32
 	var topA atomic.Uint32
 	stop := make(chan struct{})
@@ -241,7 +258,24 @@ func main() {
 			panic(err)
 		}
 		viaSync := rng.Chance(50)
-		if viaSync {
+		if rng.Chance(25) {
+			// header sync ran ahead with a COMPETING, equally valid block of this height (other timestamp, no
+			// transactions); the block that is committed afterwards is b, and every query must report b
+			rival, err := c.MakeBlock(nil, b.Header.Timestamp+1+uint32(rng.Intn(5)))
+			if err != nil {
+				panic(err)
+			}
+			if rival.Hash() != b.Hash() {
+				if err := c.Ledger.AddHeaders([]*types.Header{rival.Header}); err != nil {
+					r.Violation("valid-header-rejected", err.Error(), map[string]interface{}{"height": i, "rival": true})
+				} else {
+					r.Count("rival_header_announced_before_commit")
+					rivalAt[uint32(i)] = rival.Hash()
+				}
+			}
+			viaSync = rng.Chance(50)
+			crashSnapAt[i] = false
+		} else if viaSync {
 			if rng.Chance(50) {
 				// header-first sync: the header is known before the block arrives
 				if err := c.Ledger.AddHeaders([]*types.Header{b.Header}); err != nil {
@@ -253,6 +287,21 @@ func main() {
 					}
 				}
 			}
+		}
+		if crashSnapAt[i] {
+			crashDirs, crashAt = nil, uint32(i)
+			ledgerstore.VerifCrashPoint = func(name string, height uint32) {
+				if height != crashAt || len(name) < 7 || name[:7] != "submit:" {
+					return
+				}
+				d := filepath.Join(scratch, fmt.Sprintf("cp-%d-%d", height, len(crashDirs)))
+				if err := chain.CopyDir(dir, d); err != nil {
+					panic(err)
+				}
+				crashDirs = append(crashDirs, [2]string{name, d})
+			}
+		}
+		if viaSync {
 			res, err := c.Ledger.ExecuteBlock(b)
 			if err != nil {
 				panic(err)
@@ -265,7 +314,31 @@ func main() {
 				panic(err)
 			}
 		}
+		ledgerstore.VerifCrashPoint = nil
 		record(b, viaSync)
+		if crashSnapAt[i] {
+			// a process that died at any point of the commit sequence of block i restarts into height i-1 or i,
+			// and every query family then agrees with the committed chain up to that height
+			for _, cd := range crashDirs {
+				cc, err := chain.NewSolo(cd[1], w.BK)
+				if err != nil {
+					r.Violation("crash-point-reopen-fails:"+cd[0], err.Error(), map[string]interface{}{"height": i, "point": cd[0]})
+					os.RemoveAll(cd[1])
+					continue
+				}
+				rec := cc.Ledger.GetCurrentBlockHeight()
+				if rec != uint32(i) && rec != uint32(i-1) {
+					r.Violation("crash-point-restart-height:"+cd[0], fmt.Sprintf("restarted at height %d while block %d was being committed", rec, i), map[string]interface{}{"height": i, "point": cd[0]})
+				} else {
+					for _, h := range sampleHeights(rng.Sub(uint64(i)+4444), rec, L <= 500) {
+						checkHeight(cc, h, "after-crash-point-restart")
+					}
+					r.Count(fmt.Sprintf("crash_point_restart/%s/recovered_to_%s", cd[0], map[bool]string{true: "new", false: "old"}[rec == uint32(i)]))
+				}
+				cc.Close()
+				os.RemoveAll(cd[1])
+			}
+		}
 		top = uint32(i)
 		topA.Store(top)
 		if L <= 500 || i%50 == 0 || i > L-3 {
@@ -331,6 +404,10 @@ func main() {
 	r.Require("header_first", 5)
 	r.Require("unknown_checked", 5)
 	r.Require("restarts", 3)
+	r.Require("rival_header_announced_before_commit", 5)
+	r.Require("rival_checked/live", 5)
+	r.Require("rival_checked/after-restart", 3)
+	r.Require("height_checked/after-crash-point-restart", 20)
 	if vf.Thorough() {
 		r.Require("concurrent_reads", 1000)
 		racelogCheck()
